@@ -118,6 +118,26 @@ def llvm_kernels(req, bridge, C):
         return Tensor(allocate_taco_structure(tuple(0 if m == "d" else 1 for m in omodes), tuple(odims), tuple(oord)))
 
     rep = {"rc": {}, "out": {}}
+    if "evaluate" in kinds and req.get("public_evaluate"):
+        # the kernel a user's evaluate() runs: TensorMethod builds and JIT-compiles its own module
+        from tensora import BackendCompiler
+        from tensora.compile import TensorMethod
+
+        try:
+            with bridge.knobs(capacity=case.get("capacity")):
+                tm = TensorMethod(_prob, BackendCompiler.llvm)
+            if guard is not None:
+                guard.guard_forget()
+            res = tm(**ins)
+            rep["out"]["evaluate_public"] = C.raw_of_tensor(res)
+            if guard is not None:
+                # inspect and forget the guard zones while the result is alive: once tensora has free()d the arrays
+                # the table would describe recycled memory
+                rep["guard_zones_overwritten_public"] = int(guard.guard_check())
+                guard.guard_forget()
+            del res
+        except Exception as e:  # noqa: BLE001
+            rep["public_evaluate_raised"] = f"{type(e).__name__}: {e}"[:300]
     if "evaluate" in kinds:
         o = fresh()
         args = [o.cffi_tensor if nm == oname else ins[nm].cffi_tensor for nm in params]
